@@ -153,6 +153,16 @@ fn gen_rules(r: &mut Rng, host: &str, path_tok: &str) -> Vec<String> {
         }
         rules.push(format!("{}${}", pat, opts.join(",")));
     }
+    // a $badfilter twin of one removeparam rule, next to a sibling that differs only in the
+    // parameter it names (the twin cancels exactly the rule with the identical text)
+    if r.chance(1, 6) && !rules.is_empty() {
+        let victim = r.pick(&rules).clone();
+        if let Some((head, opts)) = victim.rsplit_once('$') {
+            let sibling_opts: Vec<String> = opts.split(',').map(|o| if o.starts_with("removeparam=") { format!("removeparam={}", r.ps(&["ad", "foo", "x1", "utm_source"])) } else { o.to_string() }).collect();
+            rules.push(format!("{}${}", head, sibling_opts.join(",")));
+        }
+        rules.push(format!("{},badfilter", victim));
+    }
     match r.below(6) {
         0 => rules.push(format!("||{}^$important", host)),
         1 => rules.push(format!("||{}^", host)),
@@ -188,9 +198,15 @@ pub fn run(ctx: &mut Ctx) {
             let host = r.ps(gen::HOSTS);
             let ptok = r.ps(gen::TOK);
             let rules = gen_rules(&mut r, host, ptok);
+            // text-level reading of $badfilter (independent of the crate's rule ids): a line
+            // `R,badfilter` cancels every line whose text is exactly R, and never matches itself
+            // (the parser reads `||www.host` as `||host`, so those two spellings are one rule)
+            let canon = |l: &str| l.replace("||www.", "||");
+            let cancelled: Vec<String> = rules.iter().filter_map(|l| l.strip_suffix(",badfilter")).map(canon).collect();
+            let effective: Vec<String> = rules.iter().filter(|l| !l.ends_with(",badfilter") && !cancelled.contains(&canon(l))).cloned().collect();
             let opts = ParseOptions::default();
             let e = build_engine(&rules, opts, true, r.chance(1, 2));
-            let mut scan = Scan::new(&rules, opts);
+            let mut scan = Scan::new(&effective, opts);
             let tags = HashSet::new();
             let mut out = vec![];
             let mut asked: Vec<(String, String, &str, Option<String>, usize)> = vec![];
@@ -224,7 +240,7 @@ pub fn run(ctx: &mut Ctx) {
                     // every removed parameter needs a rule naming it whose type options, read
                     // from the rule text, admit this request type
                     for k in removed_keys(&url, out_url) {
-                        let named = rules.iter().any(|l| {
+                        let named = effective.iter().any(|l| {
                             l.rsplit_once('$').map(|x| x.1.split(',').any(|o| o == format!("removeparam={}", k))).unwrap_or(false) && admits(l, ty)
                         });
                         if !named {
